@@ -104,10 +104,20 @@ def run(ctx):
                "zero-value output-transfer records (created by a call with value 0) are not counted as an effect",
                "trusted: TLC, mock.BlockChainHookStub / SystemSCContainerStub, the projection in harness/cmd/vh-vmcontext")
     # ---- R1a: the intended design (no deviation): all four clauses hold, exhaustively
-    write(sd, "r1a.cfg", defects="NoneOn", deploys="TRUE", log="LogNone", rest="VIEW cvars\n" + ALL_INV,
-          **(dict(keys='"k1"', vals="0, 1", maxtr=2, maxdepth=2) if q else
-             dict(keys='"k1", "k2"', vals="0, 1", maxtr=3, maxdepth=2)))
-    ctx.tlc(sd, "MC_VmContext", "r1a.cfg", timeout=1500, coverage=not q)
+    write(sd, "r1a.cfg", defects="NoneOn", deploys="TRUE", balances="FALSE" if q else "TRUE", log="LogNone",
+          rest="VIEW cvars\n" + ALL_INV, keys='"k1"', vals="0, 1", maxtr=2, maxdepth=2)
+    r = ctx.tlc(sd, "MC_VmContext", "r1a.cfg", timeout=1500, coverage=not q)
+    if not q:
+        if r.coverage_zero:
+            ctx.broken.append("vacuity guard: actions never taken in R1a: %s" % sorted(set(r.coverage_zero)))
+        ctx.cov(coverage_actions_never_taken=sorted(set(r.coverage_zero)))
+        # deeper bounds (measured: 22.8 M and 23.9 M transitions, 2.5 and 3.5 min with 4 workers)
+        write(sd, "r1a2.cfg", defects="NoneOn", deploys="TRUE", log="LogNone", rest="VIEW cvars\n" + ALL_INV,
+              keys='"k1", "k2"', vals="0, 1", maxtr=3, maxdepth=2)
+        ctx.tlc(sd, "MC_VmContext", "r1a2.cfg", timeout=3000, heap="12g")
+        write(sd, "r1a3.cfg", defects="NoneOn", deploys="TRUE", log="LogNone", rest="VIEW cvars\n" + ALL_INV,
+              keys='"k1"', vals="0, 1", maxtr=4, maxdepth=3)
+        ctx.tlc(sd, "MC_VmContext", "r1a3.cfg", timeout=3000, heap="12g")
     # ---- R1b: the code as it is: TLC must find the storage leak and the call-value leak by itself
     found = {}
     for inv in ("Inv_C40_Storage", "Inv_C40_CallValue"):
@@ -136,7 +146,7 @@ def run(ctx):
     tot = dict(b=int(h.stats.get("behaviours", 0)), s=int(h.stats.get("steps", 0)), d=int(h.stats.get("distinct", 0)),
                f=int(h.stats.get("failed_inner_calls", 0)), dr=int(h.stats.get("drifts", 0)))
     # ---- R2b: long random behaviours (3 nested activations, 2 keys, deletes, all base values)
-    write(sd, "sim.cfg", spec="GenSpec", log="LogAppend", defects="AllOn", deploys="TRUE", base="0, 2", maxtr=6,
+    write(sd, "sim.cfg", spec="GenSpec", log="LogAppend", defects="AllOn", deploys="TRUE", balances="TRUE", base="0, 2", maxtr=6,
           maxdepth=3, bound=14, rest="ACTION_CONSTRAINT EmitFullFail")
     beh2 = ctx.path("sim.ndjson")
     ctx.tlc(sd, "MC_VmContext", "sim.cfg", simulate=300 if q else 3000, depth=14, timeout=900, behaviours_out=beh2,
@@ -163,7 +173,8 @@ def run(ctx):
         if n2:
             ctx.cov(traces_validated_against_impl=int(r4.stats.get("traces", 0)), evaluations=n2,
                     real_trace_validation=how2, real_failed_inner_calls=int(r4.stats.get("failed_inner_calls", 0)),
-                    real_call_sites=r4.stats.get("sites", []))
+                    real_call_sites=r4.stats.get("sites", [])[:40])
+            ctx.sample({"real_contract_trace_first_events": [json.loads(x) for x in open(tr2).read().splitlines()[1:4]]})
         if not q and how == "accepted":
             def corrupt(evs):
                 # a failed inner call whose write is reported as rolled back although the code kept it
